@@ -1,4 +1,52 @@
 package main
 
+import (
+	"fmt"
+	"os"
+
+	dconfig "github.com/sdcio/data-server/pkg/config"
+	cachepb "github.com/sdcio/cache/proto/cachepb"
+	"verif/harness/h"
+	log "github.com/sirupsen/logrus"
+)
+
 // ad-hoc experiments go here
-func main() {}
+func main() {
+	u, err := h.LoadUniverse()
+	if err != nil {
+		panic(err)
+	}
+	dir, _ := os.MkdirTemp("/dev/shm", "probe")
+	defer os.RemoveAll(dir)
+	cc, err := h.NewLocalCache(dir)
+	if err != nil {
+		panic(err)
+	}
+	w, err := h.NewWorld(u, cc, nil, h.WorldOpts{Fragments: h.ValidityFragments(), Validation: &dconfig.Validation{}})
+	if err != nil {
+		panic(err)
+	}
+	I := func(o string, p int32, f string) h.IntentSpec { return h.IntentSpec{Owner: o, Prio: p, Frag: f} }
+	ops := []h.Op{
+		{Intents: []h.IntentSpec{I("B", 20, "vh1")}},
+		{Intents: []h.IntentSpec{I("C", 30, "vm5")}},
+		{Intents: []h.IntentSpec{{Owner: "B", Prio: 20, Delete: true}}},
+		{Intents: []h.IntentSpec{I("A", 10, "vg"), I("B", 20, "vh1")}},
+	}
+	if len(os.Args) > 1 {
+		ops = append(ops[:2], ops[3])
+	}
+	for i, op := range ops {
+		if i == 2 {
+			log.SetLevel(log.DebugLevel)
+		} else {
+			log.SetLevel(log.ErrorLevel)
+		}
+		out := w.Apply(op)
+		fmt.Println(op, "rejected:", out.Rejected(), out.Err, out.Rsp)
+		r, _ := w.ReadStore(cachepb.Store_CONFIG)
+		fmt.Println("  running:", r)
+		in, _ := w.ReadIntended()
+		fmt.Println("  intended:", in)
+	}
+}
